@@ -117,10 +117,17 @@ def extract(repo="/repo", config="default", force=False, log=sys.stderr):
     """returns the directory holding the fact files for `repo` in `config` (fresh for the current tree)"""
     repo = os.path.abspath(repo)
     os.makedirs(SCRATCH, exist_ok=True)
-    lock = open(os.path.join(SCRATCH, "lock"), "w")
-    fcntl.flock(lock, fcntl.LOCK_EX)
+    # one lock for building the driver, then one per source tree (checks of one tree share an extraction; different trees run in parallel)
+    glock = open(os.path.join(SCRATCH, "lock"), "w")
+    fcntl.flock(glock, fcntl.LOCK_EX)
     try:
         ensure_driver(log)
+    finally:
+        fcntl.flock(glock, fcntl.LOCK_UN)
+        glock.close()
+    lock = open(os.path.join(SCRATCH, "lock-" + hashlib.sha256(repo.encode()).hexdigest()[:8]), "w")
+    fcntl.flock(lock, fcntl.LOCK_EX)
+    try:
         th = tree_hash(repo)
         args, expected = CONFIGS[config]
         out = os.path.join(SCRATCH, "facts-%s-%s" % (th, config))
